@@ -1439,7 +1439,7 @@ Proof.
       * apply (sinv_wof s0 t s1); try assumption. intros w E. discriminate.
   - (* CStartWait *)
     destruct inc as [e|]; [|now apply (sinv_ret s0 t s _ I A N)].
-    destruct (handle_pending s child); [|now apply (sinv_ret s0 t s _ I A N)].
+    destruct (handle_pending s child); [|destruct (f_st (futs s _)); now apply (sinv_ret s0 t s _ I A N)].
     set (s1 := scope_cancel s (k_hscope (tasks s child)) false).
     assert (R1 : Run [t] s0 s1).
     { eapply run_trans; [exact R0|]. apply run_n; [exact T|apply ns_scope_cancel]. }
